@@ -49,9 +49,21 @@ Three parts:
        ["Pchain", [pbind, ...]]        ["Ppar", [p, ...]]
        ["Pdur", d, p]                  ["Pdelta", t, p]
        ["Pseq", [p, ...]]              (event patterns in sequence)
+       ["Pmono", instrument, {..}, {"articulate": true}]   (PmonoArtic)
+       ["Pdur", d, p, {"quant": q}]                        (Psync)
+       ["Pchain", [p, constant pbind]] (the pbind's keys are the input event
+                                        of p) / ["Pchain", [constant pbind,
+                                        p]] (its keys override p's events)
+       a Pbind key "a+b" is the key set (a, b) fed by sequences
 
    with value patterns vp: number | string | {"Rest": x} |
-   ["Pseq", [items], repeats|"inf"] | ["Pseries", start, step].
+   ["Pseq", [items], repeats|"inf"] | ["Pseries", start, step] |
+   ["Pconst", vp, sum].  A delta of 0 is allowed (simultaneous events).
+
+   Not decided (the reference refuses, the check does not generate): a
+   Pdelta or a quant rest of Pdur below an input event with stretch != 1 (is
+   the rest stretched?), rests inside Pconst, partial sums within the
+   tolerance of Pconst/Pdur, Pchain over Pmono voices.
 """
 
 import math
@@ -70,6 +82,17 @@ DEFAULTS = {
 # add actions, server command reference (/s_new)
 ADD_ACTIONS = {'addToHead': 0, 'addToTail': 1, 'addBefore': 2, 'addAfter': 3,
                'addReplace': 4}
+# the library's Node documentation also accepts these spellings and the numbers
+ADD_ACTION_SPELLINGS = dict(ADD_ACTIONS)
+ADD_ACTION_SPELLINGS.update({'head': 0, 'tail': 1, 'before': 2, 'after': 3,
+                             'replace': 4, 'h': 0, 't': 1, 'b': 2, 'a': 3,
+                             'r': 4, 0: 0, 1: 1, 2: 2, 3: 3, 4: 4})
+
+
+def add_action_number(a):
+    if isinstance(a, bool):
+        raise ValueError(a)
+    return ADD_ACTION_SPELLINGS[a]
 
 _JUST_RATIOS = [1, 16 / 15, 9 / 8, 6 / 5, 5 / 4, 4 / 3, 45 / 32, 3 / 2, 8 / 5,
                 5 / 3, 9 / 5, 15 / 8]          # Tuning.just (Tuning help)
@@ -83,6 +106,15 @@ SCALES = {
                 'ratio': 2.0},            # same scale, given explicitly
     'minorpent': {'degrees': [0, 3, 5, 7, 10], 'tuning': None, 'ratio': 2.0},
     'chromatic': {'degrees': list(range(12)), 'tuning': None, 'ratio': 2.0},
+    # the same kinds of scale built through other constructors (the check
+    # maps the names: Scale.chromatic(Tuning.et(12)), Scale(tuple, Tuning.et(12)),
+    # Scale(range(0, 12, 2)))
+    'chromatic_cm': {'degrees': list(range(12)), 'tuning': None,
+                     'ratio': 2.0},
+    'major_et12': {'degrees': [0, 2, 4, 5, 7, 9, 11], 'tuning': None,
+                   'ratio': 2.0},
+    'whole_rng': {'degrees': [0, 2, 4, 6, 8, 10], 'tuning': None,
+                  'ratio': 2.0},
     'major_just': {'degrees': [0, 2, 4, 5, 7, 9, 11],
                    'tuning': [12 * math.log2(r) for r in _JUST_RATIOS],
                    'ratio': 2.0},
@@ -343,6 +375,27 @@ def vp_iter(vp):
             while True:
                 yield vp[1] + n * vp[2]
                 n += 1
+        elif h == 'Pconst':
+            # Pconst help: values of the source until their sum reaches
+            # `sum`; the value that reaches it is cut so that the total is
+            # exactly `sum`; a source that ends early is followed by the
+            # difference.  (A partial sum inside the tolerance band below
+            # `sum` is outside the reference.)
+            total, acc = vp[2], 0.0
+            for v in vp_iter(vp[1]):
+                if is_rest_marker(v):
+                    raise ValueError('rests inside Pconst are outside the '
+                                     'reference')
+                nxt = acc + v
+                if nxt >= total:
+                    yield total - acc
+                    return
+                if nxt > total - 0.0011:
+                    raise ValueError('partial sum within the tolerance of '
+                                     'Pconst: outside the reference')
+                acc = nxt
+                yield v
+            yield total - acc
         else:
             raise ValueError(vp)
     else:
@@ -350,26 +403,58 @@ def vp_iter(vp):
             yield vp
 
 
-def _bind_events(dicts, horizon, mono=None):
-    """`dicts`: Pbind key dicts, applied first to last (later override)."""
+def _assign(ev, key, value):
+    """`a+b` is the key set (a, b) of a Pbind: the value is a sequence that
+    is distributed over the keys."""
+    if '+' in key:
+        for name, v in zip(key.split('+'), value):
+            ev[name] = v
+    else:
+        ev[key] = value
+
+
+def _bind_events(dicts, horizon, mono=None, proto=None, ids=None):
+    """`dicts`: Pbind key dicts, applied first to last (later override);
+    `proto`: the keys of the input event (the pattern's own keys override);
+    `mono`: (voice id | None, instrument, articulate)."""
     streams = [[(k, vp_iter(v)) for k, v in d.items()] for d in dicts]
     out, t, k = [], 0.0, 0
+    voice, vk = None, 0
+    if mono is not None and not mono[2]:
+        voice = mono[0]
+        vk = -1
     while t < horizon:
-        ev = {}
+        ev = dict(proto or {})
         try:
             for st in streams:
                 for key, it in st:
-                    ev[key] = next(it)
+                    _assign(ev, key, next(it))
         except StopIteration:
             break
         e = {'t': t, 'ev': ev, 'rest': is_rest(ev), 'mono': None}
+        dd = dur(ev)
         if mono is not None:
-            e['mono'] = [mono[0], k]
             ev['instrument'] = mono[1]
+            if not mono[2]:
+                vk += 1
+                e['mono'] = [voice, vk]
+            elif voice is None:
+                # PmonoArtic help: a new synth starts with an event that is
+                # held until the next one (sustain >= delta); an event that
+                # ends before the next one is an ordinary note
+                if dd['sustain'] >= dd['delta'] and not e['rest']:
+                    ids[0] += 1
+                    voice, vk = ids[0], 0
+                    e['mono'] = [voice, vk]
+            else:
+                vk += 1
+                e['mono'] = [voice, vk]
+                if dd['sustain'] < dd['delta'] or e['rest']:
+                    voice = None          # released; the next event starts
         out.append(e)
-        d = dur(ev)['delta']
-        if not d > 0:
-            raise ValueError('non-positive delta is outside the reference')
+        d = dd['delta']
+        if not d >= 0:
+            raise ValueError('negative delta is outside the reference')
         t += d
         k += 1
         if k > _CAP:
@@ -381,45 +466,102 @@ def _shift(evs, dt):
     return [dict(e, t=e['t'] + dt) for e in evs]
 
 
-def denote(p, horizon=INF, _ids=None):
+TIME_KEYS = ('dur', 'stretch', 'delta', 'sustain', 'type')
+
+
+def _const_bind(p):
+    return p[0] == 'Pbind' and not any(isinstance(v, list)
+                                       for v in p[1].values())
+
+
+def _opts(p, i):
+    return p[i] if len(p) > i and isinstance(p[i], dict) else {}
+
+
+def _stretched(proto):
+    return proto is not None and num(proto.get('stretch', 1)) != 1
+
+
+def denote(p, horizon=INF, _ids=None, proto=None):
     """-> (events with relative start < horizon in time order, total
     duration).  An event is {'t', 'ev' (explicit keys), 'rest', 'mono':
-    None | [voice id, index]}; for a Pmono voice the total of the voice is
-    reported in the *last* event of the voice as 'mono_end' by `timeline`."""
+    None | [voice id, index]}.  `proto`: keys of the input event every leaf
+    pattern starts from (Pattern.play(proto=...), or the right operand of a
+    Pchain)."""
     ids = _ids if _ids is not None else [0]
     h = p[0]
     if h == 'Pbind':
-        return _bind_events([p[1]], horizon)
+        return _bind_events([p[1]], horizon, proto=proto)
     if h == 'Pchain':
-        for c in p[1]:
-            if c[0] != 'Pbind':
-                raise ValueError('Pchain reference: Pbind children only')
-        return _bind_events([c[1] for c in reversed(p[1])], horizon)
+        kids = p[1]
+        if all(c[0] == 'Pbind' for c in kids):
+            return _bind_events([c[1] for c in reversed(kids)], horizon,
+                                proto=proto)
+        if len(kids) == 2 and _const_bind(kids[1]):
+            # the events of the right pattern are the input events of the
+            # left one
+            np_ = dict(proto or {})
+            np_.update(kids[1][1])
+            return denote(kids[0], horizon, ids, np_)
+        if len(kids) == 2 and _const_bind(kids[0]) and \
+                kids[1][0] in ('Ppar', 'Pdur', 'Pdelta', 'Pseq') and \
+                not any(k in TIME_KEYS for k in kids[0][1]):
+            # the left pattern overrides keys of the events of the right one
+            evs, tot = denote(kids[1], horizon, ids, proto)
+            out = []
+            for e in evs:
+                if e['mono'] is not None:
+                    raise ValueError('Pchain over Pmono voices is outside '
+                                     'the reference')
+                ev = dict(e['ev'])
+                ev.update(kids[0][1])
+                out.append(dict(e, ev=ev, rest=is_rest(ev)))
+            return out, tot
+        raise ValueError('Pchain reference: Pbind children, or one constant '
+                         'Pbind next to an event pattern')
     if h == 'Pmono':
-        ids[0] += 1
-        return _bind_events([p[2]], horizon, mono=(ids[0], p[1]))
+        artic = bool(_opts(p, 3).get('articulate'))
+        if not artic:
+            ids[0] += 1
+        return _bind_events([p[2]], horizon,
+                            mono=(None if artic else ids[0], p[1], artic),
+                            proto=proto, ids=ids)
     if h == 'Ppar':
         allev, total = [], 0.0
         for i, c in enumerate(p[1]):
-            evs, tot = denote(c, horizon, ids)
+            evs, tot = denote(c, horizon, ids, proto)
             allev += [(e['t'], i, j, e) for j, e in enumerate(evs)]
             total = max(total, tot)
         allev.sort(key=lambda x: x[:3])
         return [x[3] for x in allev], total
     if h == 'Pdur':
-        evs, tot = denote(p[2], min(horizon, p[1]), ids)
+        quant = _opts(p, 3).get('quant')
+        evs, tot = denote(p[2], min(horizon, p[1]), ids, proto)
+        if quant is not None and tot < p[1]:
+            # Psync help: a pattern that ends before the limit is followed
+            # by a rest up to the next multiple of quant
+            if tot > p[1] - 0.0011:
+                raise ValueError('end within the tolerance of Pdur')
+            padded = math.ceil(tot / quant) * quant
+            if padded > p[1] or (_stretched(proto) and padded != tot):
+                raise ValueError('outside the reference')
+            return evs, padded
         return evs, min(p[1], tot)
     if h == 'Pdelta':
-        if not p[1] > 0:
-            return denote(p[2], horizon, ids)
-        evs, tot = denote(p[2], horizon - p[1], ids)
-        return _shift(evs, p[1]), p[1] + tot
+        t = num(p[1])
+        if not t > 0:
+            return denote(p[2], horizon, ids, proto)
+        if _stretched(proto):
+            raise ValueError('Pdelta below a stretching input event: whether '
+                             'the time is stretched is not decided')
+        evs, tot = denote(p[2], horizon - t, ids, proto)
+        return _shift(evs, t), t + tot
     if h == 'Pseq':
         out, acc = [], 0.0
         for c in p[1]:
             if acc >= horizon:
                 break
-            evs, tot = denote(c, horizon - acc, ids)
+            evs, tot = denote(c, horizon - acc, ids, proto)
             out += _shift(evs, acc)
             acc += tot
         return out, acc
@@ -500,6 +642,51 @@ def selftest():
     evs, tot = denote(['Pchain', [['Pbind', {'dur': ['Pseq', [1, 1], 1]}],
                                   pb]])
     assert [e['t'] for e in evs] == [0.0, 1.0] and tot == 2.0
+    # Pconst help: Pconst(Pseq([1, 1, 1]), 2.5) -> 1, 1, 0.5
+    assert list(vp_iter(['Pconst', ['Pseq', [1, 1, 1], 1], 2.5])) == \
+        [1, 1, 0.5]
+    assert list(vp_iter(['Pconst', ['Pseq', [0.5], 2], 2])) == [0.5, 0.5, 1.0]
+    evs, tot = denote(['Pbind', {'midinote': ['Pseries', 30, 1],
+                                 'dur': ['Pconst', ['Pseq', [0.5, 0.25],
+                                                    'inf'], 1.5]}])
+    assert [e['t'] for e in evs] == [0.0, 0.5, 0.75, 1.25] and tot == 1.5
+    # Psync help: the total is a multiple of quant, at most the limit
+    evs, tot = denote(['Pdur', 4, ['Pbind', {'dur': ['Pseq', [0.5, 0.25],
+                                                     1]}], {'quant': 1}])
+    assert tot == 1.0 and len(evs) == 2
+    evs, tot = denote(['Pdur', 0.5, ['Pbind', {'dur': ['Pseq', [0.5, 0.25],
+                                                       1]}], {'quant': 1}])
+    assert tot == 0.5 and len(evs) == 1
+    # key sets
+    evs, tot = denote(['Pbind', {'midinote+dur': ['Pseq', [[40, 0.5],
+                                                           [41, 0.25]], 1]}])
+    assert [e['ev']['midinote'] for e in evs] == [40, 41] and tot == 0.75
+    # simultaneous events
+    evs, tot = denote(['Pbind', {'dur': ['Pseq', [0.5, 0, 0.25], 1]}])
+    assert [e['t'] for e in evs] == [0.0, 0.5, 0.5] and tot == 0.75
+    # input event: stretch 2 doubles every child's timeline
+    par = ['Ppar', [['Pbind', {'midinote': ['Pseq', [40], 1],
+                               'dur': ['Pseq', [0.5], 1]}],
+                    ['Pbind', {'midinote': ['Pseq', [60, 61], 1],
+                               'dur': ['Pseq', [1, 1], 1]}]]]
+    evs, tot = denote(par, proto={'stretch': 2})
+    assert [e['t'] for e in evs] == [0.0, 0.0, 2.0] and tot == 4.0
+    evs2, tot2 = denote(['Pchain', [par, ['Pbind', {'stretch': 2}]]])
+    assert [e['t'] for e in evs2] == [0.0, 0.0, 2.0] and tot2 == 4.0
+    evs, tot = denote(['Pchain', [['Pbind', {'amp': 0.3}], par]])
+    assert all(e['ev']['amp'] == 0.3 for e in evs) and tot == 2.0
+    # PmonoArtic help: legato < 1 re-articulates, otherwise one synth
+    art = ['Pmono', 'x', {'dur': ['Pseq', [0.5, 0.25, 1], 1]},
+           {'articulate': True}]
+    evs, tot = denote(art)
+    assert [e['mono'] for e in evs] == [None, None, None]
+    art[2]['legato'] = 1
+    evs, tot = denote(art)
+    assert [e['mono'] for e in evs] == [[1, 0], [1, 1], [1, 2]]
+    art[2]['legato'] = ['Pseq', [1, 0.5, 1], 1]
+    evs, tot = denote(art)
+    assert [e['mono'] for e in evs] == [[1, 0], [1, 1], [2, 0]]
+    assert add_action_number('t') == 1 and add_action_number(3) == 3
     # a rest is a rest however it is spelt
     assert is_rest({'type': 'rest'}) and is_rest({'degree': {'Rest': None}})
     assert is_rest({'dur': {'Rest': 0.5}}) and not is_rest({'dur': 0.5})
